@@ -22,16 +22,18 @@ type c17iComment struct {
 	Tok  string `json:"tok"`
 	Kind string `json:"kind"`           // header | pkg-doc | pkg-trailing | free | cgo-preamble | decl-doc | spec-doc | spec-trailing | func-doc | func-inner
 	Path string `json:"path,omitempty"` // import path the comment is attached to
+	Decl int    `json:"decl,omitempty"` // 1-based number of the import declaration it stands in or on
 }
 
 type c17iCase struct {
-	Mode     string        `json:"mode"` // "import-section"
-	Patch    string        `json:"patch"`
-	File     string        `json:"file"`
-	Comments []c17iComment `json:"comments"`
-	Target   string        `json:"target,omitempty"` // path of the import the patch removes
-	Op       string        `json:"op"`
-	ViaCLI   bool          `json:"via_cli,omitempty"` // run through the command line with --skip-import-processing
+	Mode       string        `json:"mode"` // "import-section"
+	Patch      string        `json:"patch"`
+	File       string        `json:"file"`
+	Comments   []c17iComment `json:"comments"`
+	Target     string        `json:"target,omitempty"` // path of the import the patch removes
+	Op         string        `json:"op"`
+	TargetDecl int           `json:"target_decl,omitempty"` // the import declaration the removed import stands in
+	ViaCLI     bool          `json:"via_cli,omitempty"`     // run through the command line with --skip-import-processing
 
 	// build constraint lines, put in front of the file after it went
 	// through gofmt (which would rewrite them)
@@ -41,10 +43,12 @@ type c17iCase struct {
 func c17iDraw(rt *rapid.T) *c17iCase {
 	cs := &c17iCase{Mode: "import-section"}
 	n := 0
+	curDecl := 0
+	declOf := map[string]int{}
 	tok := func(kind, path string) string {
 		n++
 		t := fmt.Sprintf("c17_i%d", n)
-		cs.Comments = append(cs.Comments, c17iComment{Tok: t, Kind: kind, Path: path})
+		cs.Comments = append(cs.Comments, c17iComment{Tok: t, Kind: kind, Path: path, Decl: curDecl})
 		return t
 	}
 	maybe := func(label string) bool { return rapid.IntRange(0, 2).Draw(rt, label) > 0 }
@@ -105,6 +109,7 @@ func c17iDraw(rt *rapid.T) *c17iCase {
 		return "\"" + s.path + "\""
 	}
 	for i := 0; i < len(specs); {
+		curDecl++
 		size := 1
 		if rapid.Bool().Draw(rt, fmt.Sprintf("block%d", i)) {
 			size = rapid.IntRange(1, len(specs)-i).Draw(rt, fmt.Sprintf("blockSize%d", i))
@@ -139,24 +144,33 @@ func c17iDraw(rt *rapid.T) *c17iCase {
 				b.WriteString("\n")
 			}
 		}
+		for j := i; j < i+size && j < len(specs); j++ {
+			declOf[specs[j].path] = curDecl
+		}
 		i += size
 	}
+	curDecl = 0
 	b.WriteString("\n")
 	if rapid.IntRange(0, 2).Draw(rt, "free2") == 0 {
-		fmt.Fprintf(&b, "// free-standing after the imports %s\n\n", tok("free", ""))
+		fmt.Fprintf(&b, "// free-standing after the imports %s\n\n", tok("free", "before-f"))
 	}
-	fmt.Fprintf(&b, "// f is documented. %s\nfunc f() {\n\tfoo() // %s\n\tkeep()\n}\n\n", tok("func-doc", ""), tok("func-inner", ""))
+	fmt.Fprintf(&b, "// f is documented. %s\nfunc f() {\n\tfoo() // %s\n\tkeep()\n}\n\n", tok("func-doc", "f"), tok("func-inner", "f"))
 	fmt.Fprintf(&b, "// g is not touched. %s\nfunc g() {\n\tkeep() // %s\n}\n", tok("func-doc", ""), tok("func-inner", ""))
 	cs.File = b.String()
 
 	var tg spec
-	op := rapid.IntRange(0, 5).Draw(rt, "op")
+	op := rapid.IntRange(0, 6).Draw(rt, "op")
 	if len(specs) > 0 {
 		tg = specs[rapid.IntRange(0, len(specs)-1).Draw(rt, "target")]
-	} else if op <= 2 {
+	} else if op <= 2 || op == 6 {
 		op = 3 + op%2 // nothing to delete or replace: add
 	}
 	switch op {
+	case 6:
+		// two changes: code first, then an import is deleted (with a single
+		// import that is the file's first declaration)
+		cs.Op, cs.Target, cs.TargetDecl = "delete-import-after-code-change", tg.path, declOf[tg.path]
+		cs.Patch = "@@\n@@\n-foo()\n+bar()\n\n@@\n@@\n-import " + render(tg) + "\n\n keep()\n"
 	case 0, 1:
 		cs.Op, cs.Target = "delete-import", tg.path
 		cs.Patch = "@@\n@@\n-import " + render(tg) + "\n\n foo()\n"
@@ -280,6 +294,12 @@ func c17iJudge(cs *c17iCase, out string) (found []c17iFinding) {
 	for _, c := range cs.Comments {
 		k := strings.Count(out, c.Tok+"\n") + strings.Count(out, c.Tok+" ")
 		ofTarget := cs.Target != "" && c.Path == cs.Target
+		if cs.Op == "delete-import-after-code-change" && (c.Path == "f" || c.Path == "before-f" || (c.Decl != 0 && c.Decl == cs.TargetDecl)) {
+			// f is rewritten by the first change: its comments, and the
+			// free-standing one between it and the deleted import, do not
+			// belong to an untouched declaration
+			ofTarget = true
+		}
 		if k > 1 {
 			add("import-section:duplicated:"+c.Kind, fmt.Sprintf("the %s comment %s occurs %d times in the output\n%s", c.Kind, c.Tok, k, show()))
 			continue
